@@ -52,6 +52,8 @@ func rulesC07(c *Ctx) {
 	ruleTxFn(c, "C07.TXFN")
 	ruleIndexBucketError(c, "C07.INDEXBUCKETERR")
 	ruleCallbackNotRun(c, "C07.ACTIONRUN")
+	// a failing pre-commit action fails the transaction: the action lists and their runner
+	c.As("C08.ACTIONS", "C07.ACTIONS", func() { ruleC08Actions(c) })
 	ruleSameBucket(c, "C07.SAMEBUCKET")
 	c.Floor("C07.TXFN", 8)
 	rulePostCommit(c, "C07.POSTCOMMIT")
